@@ -104,6 +104,7 @@ func main() {
 	checkStrs(strs)
 	checkContraMap(ints, strs)
 	checkContraMapIface()
+	checkMonoidWithoutSemigroup()
 	checkFrom(ints, strs)
 	checkMonoid(ints, strs)
 }
